@@ -191,6 +191,19 @@ def object_of(v):
     return v
 
 
+def reachable_from(a, addrs):
+    """is the location `a` part of one of the objects/sub-objects whose addresses are in `addrs` (a itself, or a
+    member/element of it)?  A pointer to one member of a record gives no access to its other members."""
+    x = a
+    while True:
+        if x in addrs:
+            return True
+        if x[0] in ('fld', 'idx'):
+            x = x[1]
+        else:
+            return False
+
+
 def norm(v):
     """strip the write-epoch from loads so that two reads of the same location compare equal"""
     if not isinstance(v, tuple):
@@ -613,7 +626,7 @@ class Explorer(object):
                     st.mem[addr] = val
                     rv_ = object_of(val) if val[0] in ('alloca', 'fld', 'idx') else None
                     if rv_ is not None and rv_[0] == 'alloca' and object_of(addr)[0] != 'alloca':
-                        st.escaped = st.escaped | {rv_}      # the address of a local was stored where others can find it
+                        st.escaped = st.escaped | {val}      # the address of a local (sub)object was stored where others can find it
                     if val[0] == 'call' and val[1] in self.FRESH:
                         r_ = root_of(addr)
                         if not (r_[0] == 'alloca' or (r_[0] == 'call' and r_[1] in self.FRESH and r_ not in st.escaped)):
@@ -626,7 +639,7 @@ class Explorer(object):
                     for a in list(st.mem):
                         if a != addr and a[0] != 'alloca' and self._vkey(a) == vkey:
                             r_ = object_of(a)
-                            if r_[0] == 'alloca' and r_ != ra_ and r_ not in st.escaped:
+                            if r_[0] == 'alloca' and r_ != ra_ and not reachable_from(a, st.escaped):
                                 continue      # a member of a local record whose address nobody else has
                             del st.mem[a]
                     st.events.append(Event('store', ins, addr=addr, val=val, in_loop=inloop, field=key,
@@ -878,14 +891,14 @@ class Explorer(object):
                 st.wild += 1
                 # forget non-local memory facts (fields of fresh objects that are still private
                 # to this path and are not handed to the callee keep their values)
-                aroots = set(object_of(x) for x in args if x[0] in ('alloca', 'fld', 'idx'))
+                aroots = set(x for x in args if x[0] in ('alloca', 'fld', 'idx'))
                 for a in list(st.mem):
                     r_ = root_of(a)
                     private = r_[0] == 'call' and r_[1] in self.FRESH and r_ not in st.escaped and r_ not in args
                     if private:
                         continue
                     o_ = object_of(a)
-                    if a[0] != 'alloca' and o_[0] == 'alloca' and o_ not in st.escaped and o_ not in aroots:
+                    if a[0] != 'alloca' and o_[0] == 'alloca' and not reachable_from(a, st.escaped) and not reachable_from(a, aroots):
                         continue      # member of a local record the callee cannot reach
                     if a[0] != 'alloca' or any(x == a for x in args):
                         del st.mem[a]
@@ -893,14 +906,14 @@ class Explorer(object):
             else:
                 for k in mods:
                     self._bump(st, k)
-                aroots = set(object_of(x) for x in args if x[0] in ('alloca', 'fld', 'idx'))
+                aroots = set(x for x in args if x[0] in ('alloca', 'fld', 'idx'))
                 for a in list(st.mem):
                     r_ = root_of(a)
                     private = r_[0] == 'call' and r_[1] in self.FRESH and r_ not in st.escaped and r_ not in args
                     if private:
                         continue
                     o_ = object_of(a)
-                    if a[0] != 'alloca' and o_[0] == 'alloca' and o_ not in st.escaped and o_ not in aroots:
+                    if a[0] != 'alloca' and o_[0] == 'alloca' and not reachable_from(a, st.escaped) and not reachable_from(a, aroots):
                         continue      # member of a local record the callee cannot reach
                     if field_of(a) in mods or (a[0] == 'alloca' and a in args):
                         del st.mem[a]
@@ -910,8 +923,8 @@ class Explorer(object):
                     st.mem.pop(a, None)
             if not name.startswith('llvm.'):
                 for a in args:
-                    if a[0] in ('alloca', 'fld', 'idx') and object_of(a)[0] == 'alloca' and object_of(a) not in st.escaped:
-                        st.escaped = st.escaped | {object_of(a)}     # the callee may keep the address
+                    if a[0] in ('alloca', 'fld', 'idx') and object_of(a)[0] == 'alloca' and not reachable_from(a, st.escaped):
+                        st.escaped = st.escaped | {a}     # the callee may keep the address of this (sub)object
         # any library call may set errno
         if name not in ('__errno_location',) and not name.startswith('llvm.'):
             if ('errno',) in st.mem:
